@@ -110,6 +110,8 @@ def parse_type(text: str):
             return VAL
         if t == 'Heap':
             return HEAP
+        if t == 'Counter':
+            return ('Counter',)
         if t == 'Fun':
             a = atom()
             return ('Fun', a, atom())
@@ -157,6 +159,8 @@ def show_type(t, top=True) -> str:
         r = 'PyHeap.Val %s %s' % tuple(HEAP_TP)
     elif k == 'Heap':
         r = 'PyHeap.Heap %s %s' % tuple(HEAP_TP)
+    elif k == 'Counter':
+        r = 'Int'
     elif k == 'Fun':
         r = '%s → Except PyExc %s' % (show_type(t[1], False), show_type(t[2], False))
     else:
@@ -254,6 +258,8 @@ def default_of(t, inhabited=()) -> str:
         return '(PyHeap.Val.none : %s)' % show_type(t)
     if k == 'Heap':
         return '(PyHeap.Heap.empty : %s)' % show_type(t)
+    if k == 'Counter':
+        return '(0 : Int)'
     if k == 'Var' and t[1] in inhabited:
         return '(default : %s)' % t[1]
     raise Unsupported('type', 'a local variable of abstract type %s has no initial value' % (t,))
@@ -436,6 +442,11 @@ def method_mutates(cls, fdef, tree, seen=()) -> bool:
         targets = []
         if cls.get('heap') and isinstance(n, ast.List) and isinstance(n.ctx, ast.Load):
             return True                                          # heap mode: a list display allocates a cell
+        if cls.get('heap') and isinstance(n, ast.Call) and (
+                (isinstance(n.func, ast.Name) and n.func.id == 'next')
+                or (cls.get('backend') and isinstance(n.func, ast.Attribute)
+                    and n.func.attr in (cls['backend']['push'], cls['backend']['pop']))):
+            return True                                          # a counter advanced / the backend changed
         if isinstance(n, ast.Assign):
             targets = n.targets
         elif isinstance(n, (ast.AugAssign, ast.AnnAssign)):
@@ -579,6 +590,9 @@ class FnTranslator:
         if implicit:        # key types: decidable equality, and a default for locals not yet bound
             b += ''.join('[DecidableEq %s] [Inhabited %s] ' % (v, v) for v in self.deceq)
             b += ''.join('[Inhabited %s] ' % v for v in self.inhab)
+            if self.heap and (self.cls or {}).get('backend'):
+                # heap mode: the operations of the backend attribute are a parameter (a type-class instance)
+                b += '[PyHeap.Backend %s %s %s] ' % (HEAP_TP[0], HEAP_TP[1], self.cls['backend']['type'])
         return b
 
     @property
@@ -834,6 +848,9 @@ class FnTranslator:
             elif t is None:
                 for e in tgt.elts:
                     self._infer_target(e, None, node)
+            elif t == VAL and self.heap:
+                for e in tgt.elts:                  # heap mode: unpacking a cell: every item is dynamically typed
+                    self._infer_target(e, VAL, node)
             else:
                 raise Unsupported(node, 'unpacking a non-tuple')
         else:
@@ -1098,6 +1115,10 @@ class FnTranslator:
         if isinstance(st, ast.Delete) and len(st.targets) == 1 and isinstance(st.targets[0], ast.Subscript) \
                 and self.dict_view(st.targets[0].value) is not None:
             return self._view_store(self.dict_view(st.targets[0].value), st.targets[0], None, st, rest, k, ctx, ex)
+        if self.heap and isinstance(st, ast.Expr) and isinstance(st.value, ast.Call):
+            hs = self._heap_expr_stmt(st, rest, k, ctx, ex)
+            if hs is not None:
+                return hs
         if isinstance(st, ast.Expr) and isinstance(st.value, ast.Call) and isinstance(st.value.func, ast.Name) \
                 and st.value.func.id == 'hash' and len(st.value.args) == 1 and not st.value.keywords \
                 and isinstance(st.value.args[0], ast.Name) and self.cls is not None:
@@ -1477,10 +1498,72 @@ class FnTranslator:
             kx = ex.key_term(value.args[0], dt[1])
             v = ex.partial('PyRt.Dict.pop? %s %s' % (self.view_term(a), kx), st)
             upd = [(tgt.id, v + '.1'), ('self.' + a, v + '.2')]
+        elif isinstance(tgt, ast.Name) and self._counter_next(value) is not None:
+            # x = next(self.<counter attribute>): an `itertools.count` modelled as an int incremented per call
+            a = self._counter_next(value)
+            if self.vars.get(tgt.id) != INT:
+                raise Unsupported(st, 'type of the counter value')
+            upd = [(tgt.id, self.view_term(a)), ('self.' + a, '(%s + (1 : Int))' % self.view_term(a))]
+        elif isinstance(tgt, ast.Name) and self._backend_call(value) == 'pop':
+            # x = self._pop_entry(self.<backend>): the backend's abstract operation
+            if self.vars.get(tgt.id) != VAL:
+                raise Unsupported(st, 'type of the popped entry')
+            ba = self.cls['backend']['attr']
+            v = ex.partial('PyHeap.Backend.pop %s %s' % (h, self.view_term(ba)), st)
+            upd = [(tgt.id, v + '.1'), ('self.' + ba, v + '.2')]
+        elif isinstance(tgt, (ast.Tuple, ast.List)) and all(isinstance(e, ast.Name) for e in tgt.elts) \
+                and not isinstance(value, (ast.Tuple, ast.List, ast.Call)) and self._type_of(value, ex.nn) == VAL:
+            # a, b, c = <cell>: `TypeError` for a non-list, `ValueError` for a wrong length; assigned left to right
+            if any(self.vars.get(e.id) != VAL for e in tgt.elts):
+                raise Unsupported(st, 'unpacking a cell into statically typed variables')
+            b, _ = ex.expr(value, VAL)
+            v = ex.partial('PyHeap.Heap.unpack? %s %s %d' % (h, self._atom(b), len(tgt.elts)), st)
+            upd = []
+            for i, e in enumerate(tgt.elts):
+                upd = [u for u in upd if u[0] != e.id] + [(e.id, '(PyHeap.nth %s %d)' % (v, i))]
         if upd is None:
             return None
         ctx2 = self._forget(ctx, [st])
         return self._wrap(ex, self._let_update(upd) + '\n' + self.block(rest, k, ctx2), ctx)
+
+    def _counter_next(self, node):
+        """`next(self.<a>)` with `<a>` declared `Counter` -> the attribute, else None"""
+        if isinstance(node, ast.Call) and isinstance(node.func, ast.Name) and node.func.id == 'next' \
+                and len(node.args) == 1 and not node.keywords and 'next' not in self.vars and self.cls is not None:
+            a = self.state_attr(node.args[0])
+            if a is not None and self.cls_state[a] == ('Counter',):
+                return a
+        return None
+
+    def _backend_call(self, node):
+        """`self.<push>(self.<backend>, x)` / `self.<pop>(self.<backend>)` of the spec's abstract backend -> 'push' |
+        'pop' | None"""
+        bk = (self.cls or {}).get('backend')
+        if not (bk and isinstance(node, ast.Call) and isinstance(node.func, ast.Attribute) and not node.keywords
+                and isinstance(node.func.value, ast.Name) and node.func.value.id == self.self_name
+                and node.args and self.state_attr(node.args[0]) == bk['attr']):
+            return None
+        if node.func.attr == bk['push'] and len(node.args) == 2:
+            return 'push'
+        if node.func.attr == bk['pop'] and len(node.args) == 1:
+            return 'pop'
+        return None
+
+    def _heap_expr_stmt(self, st, rest, k, ctx, ex):
+        """expression statements of heap mode: the backend's push / pop"""
+        kind = self._backend_call(st.value)
+        if kind is None:
+            return None
+        ba = self.cls['backend']['attr']
+        h = self.view_term(self.heap_attr)
+        if kind == 'push':
+            e, _ = ex.expr(st.value.args[1], VAL)
+            v = ex.partial('PyHeap.Backend.push %s %s %s' % (h, self.view_term(ba), self._atom(e)), st)
+            upd = [('self.' + ba, v)]
+        else:
+            v = ex.partial('PyHeap.Backend.pop %s %s' % (h, self.view_term(ba)), st)
+            upd = [('self.' + ba, v + '.2')]
+        return self._wrap(ex, self._let_update(upd) + '\n' + self.block(rest, k, ctx), ctx)
 
     # -- places: attributes of self and items of them ---------------------------------------------
     def _place(self, node, ex):
@@ -2239,6 +2322,12 @@ class ExprTr:
             return '(if %s then %s else %s)' % (self.cond(node.test), a, b), t
         if isinstance(node, ast.Call):
             return self._call(node, expected)
+        if isinstance(node, ast.Subscript) and self.env is None and self.fn.heap and (self.fn.cls or {}).get('backend') \
+                and self.fn.state_attr(node.value) == self.fn.cls['backend']['attr']:
+            # heap mode: `self.<backend>[0]`: the backend's abstract `front` (IndexError when it is empty)
+            if not (isinstance(node.slice, ast.Constant) and node.slice.value == 0 and type(node.slice.value) is int):
+                raise Unsupported(node, 'only item 0 of the backend can be read')
+            return self.partial('PyHeap.Backend.front %s' % self.fn.view_term(self.fn.cls['backend']['attr']), node), VAL
         if isinstance(node, ast.Subscript):
             callee = self.fn._method_call(node, {'nn': self.nn}) if self.env is None else None
             if callee is not None:
@@ -2406,6 +2495,13 @@ class ExprTr:
 
     def _call(self, node: ast.Call, expected):
         fn = self.fn
+        if self.env is None and fn.heap and (fn._counter_next(node) is not None or fn._backend_call(node)):
+            # heap mode: `next(self.<counter>)` / the backend's pop: translated at statement level only
+            if not self.infer_only:
+                raise Unsupported(node, 'a call that changes the object state inside an expression')
+            if fn._counter_next(node) is not None:
+                return 'r0', INT
+            return 'r0', (VAL if fn._backend_call(node) == 'pop' else UNIT)
         if self.env is None and fn.cls is not None and fn._raw_dict(node) is not None:
             m, attr, _ = fn._raw_dict(node)
             t = fn.cls_state[attr]
@@ -2630,6 +2726,9 @@ class ExprTr:
         return None
 
     def truthy(self, e, t, node):
+        bk = (self.fn.cls or {}).get('backend') if self.fn.heap else None
+        if bk and t == ('Var', bk['type']):
+            return '(PyHeap.Backend.truthy %s = true)' % e         # heap mode: `if backend:` / `while backend:`
         if t == BOOL:
             return '(%s = true)' % e
         if t == INT:
